@@ -50,8 +50,8 @@ CHECKS["C18"] = dict(
 
 CHECKS["C05"] = dict(
     engine="W-DEC",
-    technique=TECH + "invariant 'the receiving actor never panics' over channel / Byzantine-sender faults on real messages delivered to all 32 decode entry points, with truncation-at-every-offset and every-head-byte sweeps; one child process per trace",
-    text="Seeded exploration of the receiving side: real COSE / CBOR / JSON / extension-profile / component-list / helper-struct messages are damaged in flight (bit flips, byte edits, truncation, padding, inflated lengths, concatenation, header surgery, deep nesting) or structurally mutated at any tree node and re-signed by a Byzantine attester, and every delivered byte string is handed to all 32 decoding entry points; whatever decodes is validated, read through every getter, re-encoded (plain and validating, CBOR and JSON) and verified under every key kind and nil. A recovered panic, or a fatal crash of the receiving child, is the violation. Sweeps in every batch: truncation at every offset and substitution of every CBOR head byte of one message per kind x profile.",
+    technique=TECH + "invariant 'the receiving actor never panics' over channel / Byzantine-sender faults on real messages delivered to all 43 decode entry points, with truncation-at-every-offset and every-head-byte sweeps; one child process per trace",
+    text="Seeded exploration of the receiving side: real COSE / CBOR / JSON / extension-profile / component-list / helper-struct messages are damaged in flight (bit flips, byte edits, truncation, padding, inflated lengths, concatenation, header surgery, deep nesting) or structurally mutated at any tree node and re-signed by a Byzantine attester, and every delivered byte string is handed to all 43 decoding entry points; whatever decodes is validated, read through every getter, re-encoded (plain and validating, CBOR and JSON) and verified under every key kind and nil. A recovered panic, or a fatal crash of the receiving child, is the violation. Sweeps in every batch: truncation at every offset and substitution of every CBOR head byte of one message per kind x profile.",
     note="Reach is what the fault kinds produce from real messages: much thinner than coverage-guided fuzzing, which is outside this technique and is not substituted (DESIGN.md says so). byz.tree / json.member are structure-aware mutation under a Byzantine-sender name.",
     ref="DESIGN.md §4 C05")
 CHECKS["C06"] = dict(
